@@ -26,7 +26,7 @@ from hpstatic.interp import Interp, expr_term
 from hpstatic.logic import eval3
 from hpstatic.loader import AnalysisError
 from hpstatic.poly import Canon
-from hpstatic.terms import (sym, intern, show, subterms, calls_in, NONE, num, kw,
+from hpstatic.terms import (sym, intern, show, subterms, calls_in, NONE, num, kw, is_num,
                             FALSE, TRUE)
 from hpstatic.xrnorm import atom_rewrite
 from . import c01
@@ -71,6 +71,7 @@ def run(check, prog):
     tables_exact(check, prog)
     channel_selection(check, prog)
     tiff_scaling(check, prog)
+    depth_options(check, prog)
 
 
 def metadata_edit(check, prog):
@@ -1134,3 +1135,83 @@ def tiff_scaling(check, prog):
         check.require(len(st) == 1, 'U6-tiff-scaling', 'display_image',
                       'records the scaling it applied under _image_scaling',
                       prog.loc(q2, fd2))
+
+
+def depth_options(check, prog):
+    """U7: every documented bit depth of the TIFF export can actually be written,
+    and its grey-level count fits the integer type it is stored in.
+
+    For each literal depth the writer compares against, the string handed to
+    `astype` must name a NumPy integer type, and the scale (2**bits - 1) applied
+    to the [0, 1] image must not exceed that type's largest value ("values up to
+    the stated quantization")."""
+    import itertools
+    q = IO + '_save_im'
+    fd = prog.func(q)
+    loc = prog.loc(q, fd)
+    dsym = sym('depth')
+    lits = sorted({int(n.comparators[0].value) for n in ast.walk(fd)
+                   if isinstance(n, ast.Compare) and isinstance(n.left, ast.Name)
+                   and n.left.id == 'depth' and len(n.comparators) == 1
+                   and isinstance(n.comparators[0], ast.Constant)
+                   and isinstance(n.comparators[0].value, int)
+                   and not isinstance(n.comparators[0].value, bool)})
+    INT_MAX = {'uint8': 2**8 - 1, 'int8': 2**7 - 1, 'uint16': 2**16 - 1,
+               'int16': 2**15 - 1, 'uint32': 2**32 - 1, 'int32': 2**31 - 1,
+               'uint64': 2**64 - 1, 'int64': 2**63 - 1}
+
+    def const_of(t, k):
+        """fold a term built from literals and `depth` (= k) to a Python value"""
+        if t == dsym:
+            return k
+        if is_num(t):
+            return int(t[1]) if t[1].denominator == 1 else float(t[1])
+        if t[0] == 'const':
+            return t[1]
+        if t[0] == 'bin' and t[1] in ('+', '-', '*', '**'):
+            a, b = const_of(t[2], k), const_of(t[3], k)
+            if a is None or b is None:
+                return None
+            try:
+                return {'+': lambda: a + b, '-': lambda: a - b, '*': lambda: a * b,
+                        '**': lambda: a ** b}[t[1]]()
+            except Exception:
+                return None
+        if t[0] == 'call' and t[1] == 'str' and len(t[2]) == 1:
+            v = const_of(t[2][0], k)
+            return None if v is None else str(v)
+        return None
+    bad = []
+    n = 0
+    for k in lits:
+        def decide(t, k=k):
+            if t[0] == 'cmp' and t[1] in ('==', '!=') and t[2] == dsym:
+                if is_num(t[3]):
+                    v = t[3][1] == k
+                elif t[3][0] == 'const':
+                    v = False
+                else:
+                    return None
+                return v if t[1] == '==' else (not v)
+            return None
+        it = Interp(prog, max_depth=1, decide=decide, opaque=[IO + 'pack_attrs'])
+        res = it.analyze(q)
+        if res.raises and not res.returns:
+            continue            # this depth is refused
+        casts = [c for c in it.calls if c['name'].endswith('.astype') and len(c['args']) == 2]
+        for c in casts:
+            n += 1
+            name = const_of(c['args'][1], k)
+            if name not in INT_MAX:
+                bad.append('depth=%d: astype(%r) is not a NumPy integer type' % (k, name))
+                continue
+            scales = [const_of(x[3], k) for x in subterms(c['args'][0])
+                      if x[0] == 'bin' and x[1] == '*' and const_of(x[3], k) is not None]
+            scales += [const_of(x[2], k) for x in subterms(c['args'][0])
+                       if x[0] == 'bin' and x[1] == '*' and const_of(x[2], k) is not None]
+            if not scales or max(scales) > INT_MAX[name]:
+                bad.append('depth=%d: grey levels %s do not fit %s' % (k, scales, name))
+    check.floor('bit depths of the TIFF writer', n, 2)
+    check.require(not bad, 'U7-depth-options', '_save_im',
+                  'for every accepted depth %s the cast names an integer type that holds '
+                  'the scaled values' % lits, loc, fail_detail='; '.join(bad))
